@@ -752,8 +752,10 @@ func (p *Parser) arg() (Term, error) {
 	if arg, err := p.atom(); err == nil {
 		if p.operators.defined(arg) {
 			// Check if this atom is not followed by its own arguments.
-			switch t, _ := p.next(); t.kind {
-			case tokenComma, tokenClose, tokenBar, tokenCloseList:
+			switch t, err := p.next(); {
+			case err != nil:
+				break // Nothing follows the atom. Nothing to back up.
+			case t.kind == tokenComma, t.kind == tokenClose, t.kind == tokenBar, t.kind == tokenCloseList:
 				p.backup()
 				return arg, nil
 			default:
